@@ -178,9 +178,17 @@ def r5(ctx, P=P, rule="C07.R5"):
         ctx.check(P, rule, "current header bit = bits differ", good, "header_bits[0] != header_bits[1]", "get_current_header_bit returns %s" % (term_str(r[0]) if r else None))
 
 
-RULES = [r1, r2, r3, r4, r5]
+def r6(ctx):
+    """reopening does not panic: every panic-capable construct on the open path is discharged
+    (same engine and reviewed table as C09.R1, entry = Hypercore::new)"""
+    from . import c09
+    c09.panic_rule(ctx, P, "C07.R6", [NEW], floor=60)
+    c09.loops_can_exit(ctx, P, "C07.R6", [OPLOG_OPEN, BF_OPEN, MT_OPEN, FB_FROM_DATA, VALIDATE_LEADER, NEW], floor=4)
+
+
+RULES = [r1, r2, r3, r4, r5, r6]
 EXPLANATION = ("C07 (a torn final write is tolerated): decides that validate_leader reports a leader shorter than 8 bytes, a zero length and an incomplete payload as end-of-log before decoding or slicing "
                "(R1), that a frame is accepted only on the equal-checksum edge (R2), that a checksum failure of a header slot or of a log entry is not propagated as an error out of Oplog::open (R3, conditional "
-               "on validate_leader having an error return), and that the four combinations of slot validity each lead to the intended header choice / fresh log / EmptyStorage (R4), and that the header bits remembered for each combination agree with the slot whose header is used (R5).")
+               "on validate_leader having an error return), and that the four combinations of slot validity each lead to the intended header choice / fresh log / EmptyStorage (R4), and that the header bits remembered for each combination agree with the slot whose header is used (R5), and that every panic-capable construct and every loop on the open path (closure of Hypercore::new) is discharged / can exit (R6).")
 NOT_DECIDED = "which state a torn write recovers to (C02's undecided part); sector semantics of the disk; torn writes to the tree / bitfield / data stores."
 ASSUMPTIONS = ["a torn write leaves a byte prefix of the new data over the old data"]
